@@ -53,13 +53,13 @@ Print Assumptions C14_nil_parts_rejected.
 (* ... and no entry point lets a malformed keyset through: cleartext reader,
    no-secrets reader and API, proto-message API, encrypted reader *)
 Theorem C14_malformed_rejected_by_every_reader :
-  forall ec_point_ok ec_pub_of_priv ks, ~ wf_keyset ks ->
-    read_proto ec_point_ok ec_pub_of_priv (Some ks) = Err
-    /\ handle_no_secrets ec_point_ok ec_pub_of_priv (Some ks) = Err
+  forall (L : stdlib) ks, ~ wf_keyset ks ->
+    read_proto L (Some ks) = Err
+    /\ handle_no_secrets L (Some ks) = Err
     /\ (forall b, decode_keyset b = Some ks ->
-          read ec_point_ok ec_pub_of_priv b = Err /\ read_no_secrets ec_point_ok ec_pub_of_priv b = Err)
+          read L b = Err /\ read_no_secrets L b = Err)
     /\ (forall kek b ad ct pt, decode_encrypted b = Some ct -> kek ct ad = Some pt -> decode_keyset pt = Some ks ->
-          read_encrypted ec_point_ok ec_pub_of_priv kek b ad = Err).
+          read_encrypted L kek b ad = Err).
 Proof. exact malformed_rejected_everywhere. Qed.
 Print Assumptions C14_malformed_rejected_by_every_reader.
 
@@ -68,7 +68,7 @@ Print Assumptions C14_malformed_rejected_by_every_reader.
    known statuses and prefix types, RAW keys without id requirement, and its
    entries are the keys of the decoded keyset in order. *)
 Theorem C14_accepted_handle_wellformed :
-  forall ec_point_ok ec_pub_of_priv b h, read ec_point_ok ec_pub_of_priv b = Ok h ->
+  forall (L : stdlib) b h, read L b = Ok h ->
     exists ks, decode_keyset b = Some ks /\ wf_keyset ks /\ wf_handle h
       /\ Forall2 (entry_of (ks_primary ks)) (ks_keys ks) h.
 Proof. exact read_wf. Qed.
@@ -78,25 +78,25 @@ Print Assumptions C14_accepted_handle_wellformed.
    to a well-formed keyset every key of which its own parser (or the fallback
    for unknown type URLs) accepts, RAW keys with id requirement 0. *)
 Theorem C14_read_accepts_iff :
-  forall ec_point_ok ec_pub_of_priv b,
-    (exists h, read ec_point_ok ec_pub_of_priv b = Ok h) <->
+  forall (L : stdlib) b,
+    (exists h, read L b = Ok h) <->
     (exists ks, decode_keyset b = Some ks /\ wf_keyset ks
-       /\ Forall (key_parses ec_point_ok ec_pub_of_priv) (ks_keys ks)).
+       /\ Forall (key_parses L) (ks_keys ks)).
 Proof. exact read_ok_iff. Qed.
 Print Assumptions C14_read_accepts_iff.
 
 Theorem C14_accepted_handle_wellformed_other_readers :
-  forall ec_point_ok ec_pub_of_priv,
-    (forall b h, read_no_secrets ec_point_ok ec_pub_of_priv b = Ok h ->
+  forall L : stdlib,
+    (forall b h, read_no_secrets L b = Ok h ->
        exists k, decode_keyset b = Some k /\ has_secrets k = false /\ accepted_as k h)
-    /\ (forall ks h, read_proto ec_point_ok ec_pub_of_priv ks = Ok h -> exists k, ks = Some k /\ accepted_as k h)
-    /\ (forall ks h, handle_no_secrets ec_point_ok ec_pub_of_priv ks = Ok h ->
+    /\ (forall ks h, read_proto L ks = Ok h -> exists k, ks = Some k /\ accepted_as k h)
+    /\ (forall ks h, handle_no_secrets L ks = Ok h ->
        exists k, ks = Some k /\ has_secrets k = false /\ accepted_as k h)
-    /\ (forall kek b ad h, read_encrypted ec_point_ok ec_pub_of_priv kek b ad = Ok h ->
+    /\ (forall kek b ad h, read_encrypted L kek b ad = Ok h ->
        exists ct pt k, decode_encrypted b = Some ct /\ kek ct ad = Some pt /\ decode_keyset pt = Some k /\ accepted_as k h).
 Proof.
-  intros p q. split; [exact (read_no_secrets_wf p q)|]. split; [exact (read_proto_wf p q)|].
-  split; [exact (handle_no_secrets_wf p q)|exact (read_encrypted_wf p q)].
+  intros L. split; [exact (read_no_secrets_wf L)|]. split; [exact (read_proto_wf L)|].
+  split; [exact (handle_no_secrets_wf L)|exact (read_encrypted_wf L)].
 Qed.
 Print Assumptions C14_accepted_handle_wellformed_other_readers.
 
@@ -105,25 +105,25 @@ Print Assumptions C14_accepted_handle_wellformed_other_readers.
    model), whatever crypto/ecdh answers; and creating the primitive of a key
    the parser accepted does not panic either. *)
 Theorem C14_readers_never_panic :
-  forall ec_point_ok ec_pub_of_priv,
-    (forall b, read ec_point_ok ec_pub_of_priv b <> Panic)
-    /\ (forall b, read_no_secrets ec_point_ok ec_pub_of_priv b <> Panic)
-    /\ (forall ks, read_proto ec_point_ok ec_pub_of_priv ks <> Panic)
-    /\ (forall ks, handle_no_secrets ec_point_ok ec_pub_of_priv ks <> Panic)
-    /\ (forall kek b ad, read_encrypted ec_point_ok ec_pub_of_priv kek b ad <> Panic).
+  forall L : stdlib,
+    (forall b, read L b <> Panic)
+    /\ (forall b, read_no_secrets L b <> Panic)
+    /\ (forall ks, read_proto L ks <> Panic)
+    /\ (forall ks, handle_no_secrets L ks <> Panic)
+    /\ (forall kek b ad, read_encrypted L kek b ad <> Panic).
 Proof.
-  intros p q. split; [exact (read_np p q)|]. split; [exact (read_no_secrets_np p q)|].
-  split; [exact (read_proto_np p q)|]. split; [exact (handle_no_secrets_np p q)|exact (read_encrypted_np p q)].
+  intros L. split; [exact (read_np L)|]. split; [exact (read_no_secrets_np L)|].
+  split; [exact (read_proto_np L)|]. split; [exact (handle_no_secrets_np L)|exact (read_encrypted_np L)].
 Qed.
 Print Assumptions C14_readers_never_panic.
 
 Theorem C14_parser_and_constructor_never_panic :
-  forall ec_point_ok ec_pub_of_priv kd prefix idreq,
-    parse_key ec_point_ok ec_pub_of_priv kd prefix idreq <> Panic
-    /\ forall d, parse_key ec_point_ok ec_pub_of_priv kd prefix idreq = Ok d -> prim_ok d <> Panic.
+  forall (L : stdlib) kd prefix idreq,
+    parse_key L kd prefix idreq <> Panic
+    /\ forall d, parse_key L kd prefix idreq = Ok d -> prim_ok L d <> Panic.
 Proof.
-  intros p q kd prefix idreq. split; [exact (parse_key_np p q kd prefix idreq)|].
-  intros d. exact (parse_then_prim_np p q kd prefix idreq d).
+  intros L kd prefix idreq. split; [exact (parse_key_np L kd prefix idreq)|].
+  intros d. exact (parse_then_prim_np L kd prefix idreq d).
 Qed.
 Print Assumptions C14_parser_and_constructor_never_panic.
 
@@ -133,8 +133,8 @@ Print Assumptions C14_parser_and_constructor_never_panic.
    32, ECDSA hash at least as strong as the curve, RSA modulus >= 2048 and
    e = 65537 (the exponent as a number, of any encoded length). *)
 Theorem C14_usable_implies_strength :
-  forall ec_point_ok ec_pub_of_priv kd prefix idreq,
-    usable ec_point_ok ec_pub_of_priv kd prefix idreq = true -> strength_ok kd.
+  forall (L : stdlib) kd prefix idreq,
+    usable L kd prefix idreq = true -> strength_ok kd.
 Proof. exact usable_strength. Qed.
 Print Assumptions C14_usable_implies_strength.
 
@@ -142,8 +142,8 @@ Print Assumptions C14_usable_implies_strength.
    key with exponent field 2^64 + 65537, which int(exponent.Int64()) used to
    read as 65537, is not strong and is now refused by the parser. *)
 Theorem C14_rsa_exponent_truncation_rejected :
-  forall ec_point_ok ec_pub_of_priv,
-    ~ strength_ok rsa_trunc_kd /\ parse_key ec_point_ok ec_pub_of_priv rsa_trunc_kd pt_tink 7 = Err.
+  forall L : stdlib,
+    ~ strength_ok rsa_trunc_kd /\ parse_key L rsa_trunc_kd pt_tink 7 = Err.
 Proof. exact rsa_exponent_truncation_rejected. Qed.
 Print Assumptions C14_rsa_exponent_truncation_rejected.
 
@@ -156,6 +156,11 @@ Theorem C14_decoder_fuel_adequate :
 Proof. split; [exact fields_fuel_adequate|exact skip_groups_fuel_adequate]. Qed.
 Print Assumptions C14_decoder_fuel_adequate.
 
+(* a standard library that refuses everything (the example needs none of it) *)
+Definition std0 : stdlib :=
+  mkStd (fun _ _ => false) (fun _ _ => None) (fun _ => []) (fun _ _ => None) (fun _ _ => [])
+        (fun _ _ _ _ _ => None) (fun _ _ _ _ _ _ _ _ => false).
+
 (* Non-vacuity: a two-key keyset (a 16-byte AES-GCM key, TINK, id 5, primary;
    an unknown key type, RAW, id 9, disabled), serialized by hand, is read into
    the expected handle, and the first key is usable and strong. *)
@@ -166,19 +171,19 @@ Definition ex_keyset : bytes :=
   ++ [18; 13; 10; 5; 10; 1; 120; 24; 3; 16; 2; 24; 9; 32; 3].
 
 Example C14_nonvacuous :
-  (exists h, read (fun _ _ => false) (fun _ _ => None) ex_keyset = Ok h
+  (exists h, read std0 ex_keyset = Ok h
      /\ map eid h = [5; 9] /\ map eprim h = [true; false] /\ map ereq h = [Some 5; None] /\ wf_handle h)
-  /\ usable (fun _ _ => false) (fun _ _ => None) (mkKD u_aes_gcm ex_aes_value km_symmetric) pt_tink 5 = true
+  /\ usable std0 (mkKD u_aes_gcm ex_aes_value km_symmetric) pt_tink 5 = true
   /\ strength_ok (mkKD u_aes_gcm ex_aes_value km_symmetric)
-  /\ read (fun _ _ => false) (fun _ _ => None) [8; 5] = Err
-  /\ read (fun _ _ => false) (fun _ _ => None) [255] = Err.
+  /\ read std0 [8; 5] = Err
+  /\ read std0 [255] = Err.
 Proof.
-  assert (R : exists h, read (fun _ _ => false) (fun _ _ => None) ex_keyset = Ok h
+  assert (R : exists h, read std0 ex_keyset = Ok h
      /\ map eid h = [5; 9] /\ map eprim h = [true; false] /\ map ereq h = [Some 5; None]).
   { eexists. split; [vm_compute; reflexivity|]. vm_compute. auto. }
   destruct R as [h [R1 R2]]. split.
   - exists h. split; [exact R1|]. destruct R2 as [A [B C]]. split; [exact A|]. split; [exact B|]. split; [exact C|].
     apply read_wf in R1. destruct R1 as [ks [_ [_ [W _]]]]. exact W.
   - split; [vm_compute; reflexivity|]. split; [|split; vm_compute; reflexivity].
-    apply (usable_strength (fun _ _ => false) (fun _ _ => None) _ pt_tink 5); vm_compute; reflexivity.
+    apply (usable_strength std0 _ pt_tink 5); vm_compute; reflexivity.
 Qed.
